@@ -3,5 +3,5 @@
 tier=$1; shift; seeds=""; while [ "$1" != "--" ]; do seeds="$seeds $1"; shift; done; shift
 for s in $seeds; do for id in "$@"; do
   t0=$(date +%s); out=$(VERIF_SEED=$s bin/check $id $tier 2>&1); rc=$?; t1=$(date +%s)
-  echo "SOAK $id seed=$s rc=$rc $((t1-t0))s $(echo "$out" | grep -o 'clauses flagged.*\|INCONCLUSIVE.*\|MODEL-NOTE.*' | head -2 | tr '\n' ' ' | cut -c1-220)"
+  echo "SOAK $id seed=$s rc=$rc $((t1-t0))s $(echo "$out" | grep -o 'clauses flagged.*\|INCONCLUSIVE.*\|MODEL-NOTE.*\|SPEC-DRIFT.*\|conformance [0-9/]*' | head -2 | tr '\n' ' ' | cut -c1-220)"
 done; done
